@@ -38,11 +38,15 @@ PROPS = {
     },
     "C14": {
         "level": "exploration",
-        "stages": both("model") + [miri("miri-model", scale=0.004)],
+        "stages": both("model") + [miri("miri-model", scale=0.0015)],
     },
     "C18": {
         "level": "exploration",
         "stages": both("model") + [miri("miri-model", scale=0.004)],
+    },
+    "C12": {
+        "level": "exploration",
+        "stages": [native("threads"), miri("miri-virtual-clock", scale=0.008, miriflags="-Zmiri-preemption-rate=0.05")],
     },
     "C13": {
         "level": "exploration",
